@@ -3,6 +3,7 @@ package main
 import (
 	"go/token"
 	"go/types"
+	"strings"
 
 	"golang.org/x/tools/go/ssa"
 )
@@ -301,4 +302,99 @@ func paramActuals(p *Prog, pa *ssa.Parameter) []ssa.Value {
 		out = append(out, args[idx])
 	}
 	return out
+}
+
+// reflectCallWrapper: f is a package helper that does nothing with its parameters but `fn.Call(args)` — same argument
+// layout as the method itself, (fn reflect.Value, args []reflect.Value) — and hands the results back as its first
+// result (typically under a deferred recover that turns a panic of the called code into an error). A call of such a
+// helper is judged like the reflect Call it makes: preconditions at the helper's call sites, results as Call results.
+func reflectCallWrapper(p *Prog, f *ssa.Function) bool {
+	if f == nil || !p.InPkg(f) || f.Blocks == nil || len(f.Params) != 2 || f.Signature.Recv() != nil || f.Signature.Results().Len() < 1 {
+		return false
+	}
+	if !isReflectValue(f.Params[0].Type()) {
+		return false
+	}
+	n := 0
+	for _, b := range f.Blocks {
+		for _, in := range b.Instrs {
+			c, ok := in.(*ssa.Call)
+			if !ok || c.Common().StaticCallee() == nil {
+				continue
+			}
+			name := p.extName(c.Common().StaticCallee())
+			if !strings.HasPrefix(name, "(reflect.Value).") {
+				continue
+			}
+			if name != "(reflect.Value).Call" || stripLoad(c.Common().Args[0]) != ssa.Value(f.Params[0]) || stripLoad(c.Common().Args[1]) != ssa.Value(f.Params[1]) {
+				return false
+			}
+			n++
+		}
+	}
+	return n == 1
+}
+
+// asReflectCallSite: in is `fn.Call(args)` or a call of a reflectCallWrapper; returns the function value and the
+// argument slice.
+func asReflectCallSite(p *Prog, in ssa.Instruction) (fn, args ssa.Value, ok bool) {
+	c, isC := in.(*ssa.Call)
+	if !isC || c.Common().StaticCallee() == nil || len(c.Common().Args) < 2 {
+		return nil, nil, false
+	}
+	cal := c.Common().StaticCallee()
+	if p.extName(cal) == "(reflect.Value).Call" || reflectCallWrapper(p, cal) {
+		return c.Common().Args[0], c.Common().Args[1], true
+	}
+	return nil, nil, false
+}
+
+// recoversIntoError: f defers a closure that calls recover() and stores into f's error result: a panic raised while f
+// runs (by code f calls, or by a library operation in f) does not leave f — it is returned as an error.
+func recoversIntoError(f *ssa.Function) bool {
+	if f == nil || f.Blocks == nil {
+		return false
+	}
+	res := f.Signature.Results()
+	if res.Len() == 0 || typeName(res.At(res.Len()-1).Type()) != "error" {
+		return false
+	}
+	for _, b := range f.Blocks {
+		for _, in := range b.Instrs {
+			d, ok := in.(*ssa.Defer)
+			if !ok {
+				continue
+			}
+			var cl *ssa.Function
+			switch v := d.Call.Value.(type) {
+			case *ssa.MakeClosure:
+				cl, _ = v.Fn.(*ssa.Function)
+			case *ssa.Function:
+				cl = v
+			}
+			if cl == nil || cl.Blocks == nil {
+				continue
+			}
+			rec, sets := false, false
+			for _, cb := range cl.Blocks {
+				for _, ci := range cb.Instrs {
+					if c, isC := ci.(*ssa.Call); isC {
+						if bi, isB := c.Common().Value.(*ssa.Builtin); isB && bi.Name() == "recover" {
+							rec = true
+						}
+					}
+					if st, isSt := ci.(*ssa.Store); isSt {
+						if fv, isFV := st.Addr.(*ssa.FreeVar); isFV && typeName(fv.Type().(*types.Pointer).Elem()) == "error" {
+							sets = true
+						}
+					}
+				}
+			}
+			// the deferred closure must be registered before anything else can panic: in the entry block
+			if rec && sets && b == f.Blocks[0] {
+				return true
+			}
+		}
+	}
+	return false
 }
